@@ -116,6 +116,10 @@ func H_C05E() {
 		cfg.UseDeltaInterleaving()
 	}
 	DiskBlockSize = vBound("blocksize")
+	if r := vBound("vrate"); r > 0 {
+		// the backup's visitor refreshes its iterators every 10000 steps; a small rate stands in for large shards
+		cfg.refreshRate = r
+	}
 	db := NewWithConfig(cfg)
 	E := vBound("epochs")
 	K := vBound("keys")
